@@ -81,9 +81,8 @@ Lemma canon_replayed : forall o0 o1 o2 o3 o4 o5,
   canon_ops (rop n ops 0) (rop n ops 1) (rop n ops 2) (rop n ops 3) (rop n ops 4) (rop n ops 5) = canon_ops o0 o1 o2 o3 o4 o5.
 Proof.
   intros. subst n ops. unfold canon_ops, op_count.
-  destruct (is_none o3) eqn:E3;
-    [ destruct (is_none o2) eqn:E2; [ destruct (is_none o1) eqn:E1; [ destruct (is_none o0) eqn:E0 | ] | ]
-    | destruct (is_none o4) eqn:E4; [ | destruct (is_none o5) eqn:E5 ] ];
+  destruct (is_none o5) eqn:E5; [ destruct (is_none o4) eqn:E4; [ destruct (is_none o3) eqn:E3;
+    [ destruct (is_none o2) eqn:E2; [ destruct (is_none o1) eqn:E1; [ destruct (is_none o0) eqn:E0 | ] | ] | ] | ] | ];
   cbn; unfold rop, nth_op; cbn; rewrite ?is_none_none, ?E0, ?E1, ?E2, ?E3, ?E4, ?E5; cbn; reflexivity.
 Qed.
 
@@ -96,12 +95,34 @@ Proof.
   rewrite clear_reserved_idem. rewrite canon_replayed. now destruct (p_comment b) as [[|]|].
 Qed.
 
-(* operands beyond a hole in the extended part ARE lost (both for the Builder and - through op_count_from_emit_args - for validation):
-   a call (o0,o1,o2,none,o4,-) is recorded with 3 operands *)
-Lemma hole_drops_operand : exists o0 o1 o2 o4,
-  is_none o4 = false /\ canon_ops o0 o1 o2 op_none o4 op_none = [o0; o1; o2; op_none; op_none; op_none].
+(* every operand handed to _emit is kept, whatever empty slots precede it: slot i of the recorded call is the operand passed in slot i *)
+Lemma all_operands_kept : forall o0 o1 o2 o3 o4 o5 i,
+  is_none (nth i [o0; o1; o2; o3; o4; o5] op_none) = false ->
+  nth i (canon_ops o0 o1 o2 o3 o4 o5) op_none = nth i [o0; o1; o2; o3; o4; o5] op_none.
 Proof.
-  exists (mkOp 1 0 0 0), (mkOp 1 1 0 0), (mkOp 1 2 0 0), (mkOp 1 3 0 0). split; reflexivity.
+  intros o0 o1 o2 o3 o4 o5 i H. unfold canon_ops, op_count.
+  do 6 (destruct i as [|i]; [cbn in H; rewrite ?H;
+    destruct (is_none o5) eqn:E5, (is_none o4) eqn:E4, (is_none o3) eqn:E3, (is_none o2) eqn:E2, (is_none o1) eqn:E1, (is_none o0) eqn:E0;
+    cbn; try reflexivity; congruence|]).
+  cbn in H. destruct i; discriminate.
+Qed.
+
+(* the empty slots of a recorded call are op_none, and the list always has the six slots of the emitter interface *)
+Lemma canon_ops_shape : forall o0 o1 o2 o3 o4 o5,
+  List.length (canon_ops o0 o1 o2 o3 o4 o5) = 6%nat /\
+  forall i, is_none (nth i [o0; o1; o2; o3; o4; o5] op_none) = true -> is_none (nth i (canon_ops o0 o1 o2 o3 o4 o5) op_none) = true.
+Proof.
+  intros. unfold canon_ops, op_count.
+  destruct (is_none o5) eqn:E5, (is_none o4) eqn:E4, (is_none o3) eqn:E3, (is_none o2) eqn:E2, (is_none o1) eqn:E1, (is_none o0) eqn:E0;
+    (split; [reflexivity|]); intros i H; do 6 (destruct i as [|i]; [cbn in *; congruence|]); destruct i; reflexivity.
+Qed.
+
+(* with the counting rule before the repair, operands beyond a hole in the extended part WERE lost: a call (o0,o1,o2,none,o4,-) was
+   recorded with 3 operands *)
+Lemma legacy_count_drops_operand : exists o0 o1 o2 o4,
+  is_none o4 = false /\ op_count_legacy o0 o1 o2 op_none o4 op_none = 3%nat /\ op_count o0 o1 o2 op_none o4 op_none = 5%nat.
+Proof.
+  exists (mkOp 1 0 0 0), (mkOp 1 1 0 0), (mkOp 1 2 0 0), (mkOp 1 3 0 0). repeat split; reflexivity.
 Qed.
 
 (* ================================================================== P2: serialization yields the nodes' calls, whatever one-shot state is pending *)
